@@ -17,8 +17,8 @@ package main
 //                   codecs with the protocol layout (shared with C12/C11)
 
 import (
-	"go/types"
 	"fmt"
+	"go/types"
 	"strings"
 
 	"golang.org/x/tools/go/ssa"
@@ -27,6 +27,7 @@ import (
 func init() { register("C03", checkC03) }
 
 func checkC03(p *Prog, r *Report) {
+	requireRecognisedDispatch(p)
 	r.NotCov = append(r.NotCov,
 		"the fidelity of the library's frame codecs and of the compression algorithms",
 		"byte equality as such: decided are ownership (who may write frame fields) and provenance (which frame object is encoded)")
@@ -69,6 +70,22 @@ func c03FrameOwnership(p *Prog, r *Report) {
 				for _, o := range origins(v) {
 					if sl, ok := o.(*ssa.Slice); ok {
 						walk(sl.X, depth+1)
+						continue
+					}
+					// the bytes of a buffer object kept in a field (bytes.Buffer.Bytes() and the
+					// like): a view of storage that the next Reset/Write reuses
+					if c, ok := o.(*ssa.Call); ok {
+						if callee := c.Call.StaticCallee(); callee != nil && !p.InRepo(callee) && callee.Signature.Recv() != nil && len(c.Call.Args) > 0 {
+							if _, isBytes := c.Type().Underlying().(*types.Slice); isBytes {
+								if bf := baseField(c.Call.Args[0]); bf != nil {
+									if fa, ok := c.Call.Args[0].(*ssa.FieldAddr); ok {
+										if owner := namedOf(fa.X.Type()); owner != nil && owner.Obj().Pkg() != nil && strings.HasPrefix(owner.Obj().Pkg().Path(), modPath) {
+											bad = append(bad, fmt.Sprintf("%s: %s builds a frame whose body is %s() of the buffer %s.%s: the buffer is reused for the next frame while this one may still be queued for writing (or be written again on a retry), so the bytes that leave are those of another frame", p.Pos(lit["\x00pos"].Pos()), fn.Name(), callee.Name(), owner.Obj().Name(), bf.Name()))
+										}
+									}
+								}
+							}
+						}
 						continue
 					}
 					f, base := loadedField(o)
